@@ -7,7 +7,7 @@ from .. import ref
 
 RULE = ("exhaustive matrix: scheme {http,https,ws,wss,ftp,other,none} x port {absent, 0, 1, around each default, 65534, 65535, leading zeros; "
         "invalid: 65536, 70000, -1, 10^12, bools, '80', 80.0, non-numeric text} x host kind {reg-name, trailing dot, IPv4, IPv6, IPv6+zone} x "
-        "userinfo {none,u,u:p,:p} x route {constructor, build(port=), build(authority=), with_port()}; plus random ports and junk port text. "
+        "userinfo {none,u,u:p,:p} x route {constructor, build(port=), build(authority=), with_port(), with_scheme() after the source URL's accessors were read / on a fresh source}; plus random ports and junk port text. "
         "Oracle: R-PORT (default table, 0 != absent, elision exactly for absent/default). Non-trivial: port is 0, a default, adjacent to a "
         "default or 65535, or invalid; or the host is IPv6 / userinfo is present. Distinct by full case.")
 EXHAUSTIVE_NOTE = "the scheme x port x host x userinfo x route matrix is enumerated completely in both tiers"
@@ -58,6 +58,22 @@ def check_port(ctx, backend, route, scheme, port, host, ui):
         p = None if port in (None, "") else (int(port) if valid else None)
         auth = "%s%s%s" % (ui, htext, "" if port is None else ":" + port)
         make = lambda: URL.build(scheme=scheme, authority=auth, path="/p")  # noqa: E731
+    elif route in ("with_scheme", "with_scheme-fresh"):
+        # the port semantics of a URL whose scheme was replaced afterwards; in the plain variant every port-related accessor of the source
+        # URL has been read before (memoised values must not leak into the derived URL)
+        valid = port is None or port == "" or (port.isascii() and port.isdigit() and int(port) <= 65535)
+        p = None if port in (None, "") else (int(port) if valid else None)
+        if not scheme:
+            ctx.case(False, label="skipped:not-applicable")
+            return
+        src_scheme = "https" if scheme in ("http", "ws") else "http"
+        s0 = "%s://%s%s%s/p" % (src_scheme, ui, htext, "" if port is None else ":" + port)
+
+        def make():
+            b = URL(s0)
+            if route == "with_scheme":
+                b.port, b.explicit_port, b.host_port_subcomponent, b.is_default_port(), str(b), b.authority, b.raw_host, hash(b)
+            return b.with_scheme(scheme)
     elif route == "with_port":
         valid = port is None or (type(port) is int and 0 <= port <= 65535)
         p = port if valid else None
@@ -75,7 +91,7 @@ def check_port(ctx, backend, route, scheme, port, host, ui):
         elif route == "with_port":
             want = TypeError if not (type(port) is int) else ValueError
             ctx.check(type(e) is want, "with_port rejects with the wrong exception type", observed=e, expected=want.__name__, entry=route)
-        elif route in ("ctor", "build-authority"):
+        elif route in ("ctor", "build-authority", "with_scheme", "with_scheme-fresh"):
             ctx.check(isinstance(e, ValueError), "invalid port text must be rejected with ValueError", observed=e, expected="ValueError", entry=route)
         return
     except Exception as e:  # noqa: BLE001
@@ -138,6 +154,8 @@ def matrix(ctx, backend):
         for port in text_ports:
             ctx.run("port", backend=backend, route="ctor", scheme=scheme, port=port, host=host, ui=ui)
             ctx.run("port", backend=backend, route="build-authority", scheme=scheme, port=port, host=host, ui=ui)
+            ctx.run("port", backend=backend, route="with_scheme", scheme=scheme, port=port, host=host, ui=ui)
+            ctx.run("port", backend=backend, route="with_scheme-fresh", scheme=scheme, port=port, host=host, ui=ui)
         for port in obj_ports:
             ctx.run("port", backend=backend, route="build", scheme=scheme, port=port, host=host, ui=ui)
             ctx.run("port", backend=backend, route="with_port", scheme=scheme, port=port, host=host, ui=ui)
